@@ -92,8 +92,10 @@ def zipSpec (k : Nat) (H : History) : List Ev :=
 def zipRxCompletes (k : Nat) (H : History) : Bool :=
   (List.range k).any fun i => completedIn H i && (srcItems i H).length == (zipRows (columns k H)).length
 
-/-! ### combine_latest (true ReactiveX): on each item, once every source has emitted, the latest item of
-every source -/
+/-! ### combine_latest (ReactiveX): on each item, once every source has emitted, the tuple of the latest item of
+every source (a source that has completed keeps its latest value; a source that completes without an item makes the
+output silent); the first error ends the output at once; `complete` when every source has completed.  The case
+language applies `combine_f` (a left fold of a binary function) to every tuple: `CombEval.foldEv`. -/
 
 /-- the latest item of every source, once every source has emitted -/
 def latestRow (k : Nat) (pre : History) : Option (List Data) :=
